@@ -85,6 +85,8 @@ class TypeScriptMagicNumberAnalyzer(TypeScriptBaseAnalyzer):  # thailint: ignore
             Numeric value (int or float) or None if parsing fails
         """
         text = self.extract_node_text(node)
+        if text.endswith("n"):
+            text = text[:-1]  # BigInt literal (10n)
         try:
             # Prefixed literals (hex digits may contain 'e') and plain integers
             if text[:2].lower() in ("0x", "0o", "0b") or ("." not in text and "e" not in text.lower()):
